@@ -67,22 +67,22 @@ type tkind int
 const (
 	tkConst tkind = iota
 	tkSig
-	tkSel     // select on a signal / memory
-	tkValSel  // select on an arbitrary value (parameter ...)
-	tkUnary   // + - ~
-	tkReduce  // & | ^ ~& ~| ~^
-	tkLogNot  // !
-	tkBin     // + - * / % & | ^ ~^
-	tkShift   // << >> <<< >>>
-	tkPow     // **
-	tkCmp     // < <= > >= == != === !==
-	tkLogic   // && ||
-	tkTern    // ?:
-	tkConcat  // {a,b}
-	tkRepl    // {n{a,b}}
-	tkCast    // $signed $unsigned
-	tkCall    // user function
-	tkClog2   // $clog2
+	tkSel    // select on a signal / memory
+	tkValSel // select on an arbitrary value (parameter ...)
+	tkUnary  // + - ~
+	tkReduce // & | ^ ~& ~| ~^
+	tkLogNot // !
+	tkBin    // + - * / % & | ^ ~^
+	tkShift  // << >> <<< >>>
+	tkPow    // **
+	tkCmp    // < <= > >= == != === !==
+	tkLogic  // && ||
+	tkTern   // ?:
+	tkConcat // {a,b}
+	tkRepl   // {n{a,b}}
+	tkCast   // $signed $unsigned
+	tkCall   // user function
+	tkClog2  // $clog2
 )
 
 // tnode is the typed (self-determined width / sign) expression tree.
@@ -599,7 +599,15 @@ func toIndex(x cexpr) func(*Sim) (int64, bool) {
 		f := x.n
 		if x.signed {
 			w := x.w
-			return func(s *Sim) (int64, bool) { return sext64(f(s), w), true }
+			return func(s *Sim) (int64, bool) {
+				v := sext64(f(s), w)
+				if v < -(1 << 62) {
+					v = -(1 << 62)
+				} else if v >= 1<<62 {
+					return 0, false
+				}
+				return v, true
+			}
 		}
 		return func(s *Sim) (int64, bool) {
 			v := f(s)
@@ -615,7 +623,20 @@ func toIndex(x cexpr) func(*Sim) (int64, bool) {
 	return func(s *Sim) (int64, bool) {
 		l := f(s)
 		if signed && wSignBit(l, w) {
-			return -1, true // any negative index is out of range
+			// negative: exact when it fits in int64, otherwise "very negative"
+			for i := 1; i < len(l); i++ {
+				top := ^uint64(0)
+				if i == len(l)-1 {
+					top = mask64(w - i*64)
+				}
+				if l[i] != top {
+					return -(1 << 62), true
+				}
+			}
+			if l[0]>>63 == 0 || int64(l[0]) < -(1<<62) {
+				return -(1 << 62), true
+			}
+			return int64(l[0]), true
 		}
 		lo, ok := wFitsU64(l)
 		if !ok || lo >= 1<<62 {
